@@ -15,14 +15,16 @@ CONSTANTS
   MaxBytes,     \* bytes written per file, at most
   MaxCalls,     \* write calls per file, at most
   MaxMembers,   \* length of the oracle cz
+  MaxFiles,     \* files concatenated, at most
   CSizes,       \* compressed sizes of a member picked from
   Fars          \* subset of BOOLEAN: does the data contain matches at distances up to the dictionary size
 
 \* ---------------------------------------------------------------------------------------- writer
 VARIABLES cfg,    \* [dict (clamped), limit, far, cz]
           ws,     \* writer state
-          calls, file, phase, rd
-vars == <<cfg, ws, calls, file, phase, rd>>
+          calls, file, phase, rd,
+          prev    \* files already finished and concatenated in front: [n |-> count, total |-> bytes, recs |-> records, hist |-> <<[dict, limit, far, calls]>>]
+vars == <<cfg, ws, calls, file, phase, rd, prev>>
 
 HdrRec(d)        == [k |-> "Hdr", magic_ok |-> TRUE, version |-> 1, dictbyte |-> EncodeByte(d), dict |-> Decode(Encode(d))]
 BodyRec(c, need) == [k |-> "Body", csize |-> c, need |-> need]
@@ -54,20 +56,33 @@ DoFinish(c, s) == FinishMember(c, IF s.open THEN s ELSE StartMember(c, s))
 Cfgs == [dict : {Clamp(d) : d \in Dicts}, limit : LimitOpts, far : Fars, cz : [1..MaxMembers -> CSizes]]
 RD0 == [st |-> "idle", pos |-> 1, out |-> 0, members |-> 0]
 
-InitWith(c) == cfg = c /\ ws = W0 /\ calls = <<>> /\ file = <<>> /\ phase = "write" /\ rd = RD0
+P0 == [n |-> 0, total |-> 0, recs |-> <<>>, hist |-> <<>>]
+InitWith(c) == cfg = c /\ ws = W0 /\ calls = <<>> /\ file = <<>> /\ phase = "write" /\ rd = RD0 /\ prev = P0
 Init == \E c \in Cfgs : InitWith(c)
 
 Write(n) ==
   /\ phase = "write" /\ ws.total + n <= MaxBytes /\ Len(calls) < MaxCalls
   /\ ws' = WriteLoop(cfg, ws, n) /\ ws'.nm < MaxMembers
   /\ calls' = Append(calls, <<"w", n>>)
-  /\ UNCHANGED <<cfg, file, phase, rd>>
+  /\ UNCHANGED <<cfg, file, phase, rd, prev>>
 
+\* `file` is everything written so far: the finished files in front plus the members of this writer
 Finish ==
   /\ phase = "write"
-  /\ file' = DoFinish(cfg, ws).out /\ ws' = [DoFinish(cfg, ws) EXCEPT !.finished = TRUE]
-  /\ calls' = Append(calls, <<"x", 0>>) /\ phase' = "read" /\ rd' = [RD0 EXCEPT !.st = "member"]
-  /\ UNCHANGED cfg
+  /\ file' = prev.recs \o DoFinish(cfg, ws).out /\ ws' = [DoFinish(cfg, ws) EXCEPT !.finished = TRUE]
+  /\ calls' = Append(calls, <<"x", 0>>) /\ phase' = "env"
+  /\ UNCHANGED <<cfg, rd, prev>>
+
+\* environment: concatenate another file written with other options, or start reading
+NextFile(c) ==
+  /\ phase = "env" /\ prev.n + 1 < MaxFiles
+  /\ prev' = [n |-> prev.n + 1, total |-> prev.total + ws.total, recs |-> file,
+              hist |-> Append(prev.hist, [dict |-> cfg.dict, limit |-> cfg.limit, far |-> cfg.far, calls |-> calls])]
+  /\ cfg' = c /\ ws' = W0 /\ calls' = <<>> /\ phase' = "write"
+  /\ UNCHANGED <<file, rd>>
+
+StartRead == /\ phase = "env" /\ phase' = "read" /\ rd' = [RD0 EXCEPT !.st = "member"]
+             /\ UNCHANGED <<cfg, ws, calls, file, prev>>
 
 \* ---------------------------------------------------------------------------------------- reader (member loop)
 Kind(i) == IF i <= Len(file) THEN file[i].k ELSE "EOF"
@@ -82,11 +97,13 @@ RMember ==
   /\ rd' = IF Kind(rd.pos) = "EOF" THEN [rd EXCEPT !.st = "eof"]
            ELSE IF MemberOk(rd.pos) THEN [rd EXCEPT !.pos = @ + 3, !.out = @ + file[rd.pos + 2].data_size, !.members = @ + 1]
            ELSE [rd EXCEPT !.st = "err"]
-  /\ UNCHANGED <<cfg, ws, calls, file, phase>>
+  /\ UNCHANGED <<cfg, ws, calls, file, phase, prev>>
 
-RDone == /\ phase = "read" /\ rd.st \in {"eof", "err"} /\ phase' = "done" /\ UNCHANGED <<cfg, ws, calls, file, rd>>
+RDone == /\ phase = "read" /\ rd.st \in {"eof", "err"} /\ phase' = "done" /\ UNCHANGED <<cfg, ws, calls, file, rd, prev>>
 
-Next == (phase = "write" /\ \E n \in WriteSizes : Write(n)) \/ Finish \/ RMember \/ RDone
+Next == \/ (phase = "write" /\ \E n \in WriteSizes : Write(n)) \/ Finish
+        \/ (phase = "env" /\ prev.n + 1 < MaxFiles /\ \E c \in Cfgs : NextFile(c)) \/ StartRead
+        \/ RMember \/ RDone
 Spec == Init /\ [][Next]_vars
 
 \* ---------------------------------------------------------------------------------------- format rules / properties
@@ -112,13 +129,17 @@ ScanBack(sizes, j, pos) == IF j = 0 THEN <<>> ELSE ScanBack(sizes, j - 1, pos - 
 RECURSIVE Starts(_, _, _)
 Starts(sizes, j, pos) == IF j > Len(sizes) THEN <<>> ELSE <<pos>> \o Starts(sizes, j + 1, pos + sizes[j])
 
-Written == phase # "write"
-WellFormed  == Written => (WellFormedF(file) /\ DictCoversF(file, cfg.dict))
-Content     == Written => SumSeq(MembersOf(file, 1), 1) = ws.total
-SizeLimit   == (Written /\ cfg.limit # 0) => \A j \in 1..Len(MembersOf(file, 1)) : MembersOf(file, 1)[j] <= Max(cfg.limit, cfg.dict)
+\* (writer-level properties are evaluated right after Finish, on the members of the file just written)
+Written == phase = "env"
+Mine == SubSeq(file, Len(prev.recs) + 1, Len(file))
+WellFormed  == Written => (WellFormedF(Mine) /\ DictCoversF(Mine, cfg.dict) /\ WellFormedF(file))
+Content     == Written => SumSeq(MembersOf(Mine, 1), 1) = ws.total
+SizeLimit   == (Written /\ cfg.limit # 0) => \A j \in 1..Len(MembersOf(Mine, 1)) : MembersOf(Mine, 1)[j] <= Max(cfg.limit, cfg.dict)
 MembersFull == (Written /\ cfg.limit # 0) =>
-                 LET m == MembersOf(file, 1) IN \A j \in 1..(Len(m) - 1) : m[j] = Max(cfg.limit, cfg.dict)
+                 LET m == MembersOf(Mine, 1) IN \A j \in 1..(Len(m) - 1) : m[j] = Max(cfg.limit, cfg.dict)
+\* C12: the backward scan of the MT reader finds the members of the whole (concatenated) file in file order
 ScanOrder   == Written => LET sz == MemberSizes(file) IN ScanBack(sz, Len(sz), SumSeq(sz, 1)) = Starts(sz, 1, 0)
-RoundTrip   == phase = "done" => (rd.st = "eof" /\ rd.out = ws.total /\ rd.members = Len(file) \div 3)
-TypeOK == phase \in {"write", "read", "done"} /\ rd.st \in {"idle", "member", "eof", "err"}
+\* C02 / C12: every member of every concatenated file is decoded, in order
+RoundTrip   == phase = "done" => (rd.st = "eof" /\ rd.out = prev.total + ws.total /\ rd.members = Len(file) \div 3)
+TypeOK == phase \in {"write", "env", "read", "done"} /\ rd.st \in {"idle", "member", "eof", "err"}
 =============================================================================
